@@ -213,12 +213,12 @@ impl<D: DataMut> ReaderFrom for GGSWCompressed<D> {
         let dsize = Dsize(reader.read_u32::<LittleEndian>()?);
         let rank = Rank(reader.read_u32::<LittleEndian>()?);
         let seed_len: usize = reader.read_u32::<LittleEndian>()? as usize;
-        if seed_len > self.seed.len() {
+        if seed_len > self.seed.capacity() {
             return Err(std::io::Error::new(
                 std::io::ErrorKind::InvalidData,
                 format!(
-                    "GGSWCompressed seed table too small: self.seed.len()={} < read len={seed_len}",
-                    self.seed.len()
+                    "GGSWCompressed seed table too small: self.seed.capacity()={} < read len={seed_len}",
+                    self.seed.capacity()
                 ),
             ));
         }
@@ -231,7 +231,9 @@ impl<D: DataMut> ReaderFrom for GGSWCompressed<D> {
         self.base2k = base2k;
         self.dsize = dsize;
         self.rank = rank;
-        self.seed = seed;
+        // Keep the receiver's table (and its capacity): a later, larger object must still fit.
+        self.seed.clear();
+        self.seed.extend_from_slice(&seed);
         Ok(())
     }
 }
